@@ -300,7 +300,10 @@ class Dying(BacktrackSolver):
             n = 0
             def put(s, msg):
                 if outer.die_at is not None and s.n == outer.die_at:
-                    q.close(); q.join_thread(); os._exit(1)
+                    q.close(); q.join_thread()
+                    if outer.exit_code < 0:
+                        os.kill(os.getpid(), -outer.exit_code)
+                    os._exit(outer.exit_code)
                 q.put(msg); s.n += 1
         return Q()
     def solve_and_queue(self, idx, q):
@@ -311,7 +314,7 @@ class Dying(BacktrackSolver):
         super().optimize_and_queue(v, f, idx, self._q(q))
 
 import time
-mode, dead_at, nsol, delays, prior = %(mode)r, %(dead_at)r, %(nsol)r, %(delays)r, %(prior)r
+mode, dead_at, nsol, delays, prior, exitcodes = %(mode)r, %(dead_at)r, %(nsol)r, %(delays)r, %(prior)r, %(exitcodes)r
 solvers = []
 for w, k in enumerate(nsol):
     # worker w enumerates k solutions: one variable with k values (k = 0: an inconsistent constraint)
@@ -321,13 +324,17 @@ for w, k in enumerate(nsol):
         pb.add_propagator(([0], ALG_AFFINE_LEQ, [1, -1000]))
     s = Dying(pb, log_level="CRITICAL")
     s.wanted_die_at = dead_at[w] if dead_at[w] <= k else None
+    s.exit_code = int(exitcodes.get(str(w), 1))  # how a dying worker ends: 1 crash / uncaught exception, -9 killed, 0 SystemExit
     s.wanted_delay = delays[w]
     s.die_at, s.delay = None, 0.0
     solvers.append(s)
 mp = MultiprocessingSolver(solvers, log_level="CRITICAL")
 if prior:
     # a first, healthy call on the same MultiprocessingSolver object
-    print("FIRST", sorted(x.tolist() for x in mp.solve()) if prior == "solve" else mp.minimize(0))
+    if prior == "solve_abandoned":
+        g_ = mp.solve(); print("FIRST", next(g_, None)); g_.close(); time.sleep(1.0)
+    else:
+        print("FIRST", sorted(x.tolist() for x in mp.solve()) if prior == "solve" else mp.minimize(0))
 for s in solvers:
     s.die_at, s.delay = s.wanted_die_at, s.wanted_delay
 try:
@@ -382,12 +389,16 @@ def replay_reducer(r):
             return True, "get_statistics failed: " + (p.stdout + p.stderr)[-300:]
         return line[-1] != "STATS []", "aggregated vs sum of the sequential runs of the same parts (alg, label, aggregated, expected): " + line[-1][6:300]
 
+    if r.get("prior") == "solve_abandoned":
+        # the abandoned first enumeration needs something to leave behind: every worker enumerates at least one solution (in both calls:
+        # the same solver objects are used)
+        r = dict(r, nsol=[max(1, n) for n in r["nsol"]])
     nw = len(r["nsol"])
     healthy_kind = r["kind"] in ("raises-on-healthy-run", "returned-before-all-workers-finished", "none-although-solutions-exist", "not-optimal", "solutions-not-the-multiset-union")
     # a healthy run in which the first worker finishes at once and the others stay silent for several queue time-outs
     delays = [0.0] + [3.5] * (nw - 1) if healthy_kind else [0.0] * nw
     dead_at = [10**6] * nw if healthy_kind else r["dead_at"]
-    code = REDUCER_SCRIPT % dict(repo=os.environ.get("NUSYM_REPO", "/repo"), mode=r["mode"], dead_at=dead_at, nsol=[max(0, n) for n in r["nsol"]], delays=delays, prior=r.get("prior"))
+    code = REDUCER_SCRIPT % dict(repo=os.environ.get("NUSYM_REPO", "/repo"), mode=r["mode"], dead_at=dead_at, nsol=[max(0, n) for n in r["nsol"]], delays=delays, prior=r.get("prior"), exitcodes=r.get("exitcodes") or {})
     import signal
 
     proc = subprocess.Popen([sys.executable, "-c", code], stdout=subprocess.PIPE, stderr=subprocess.STDOUT, text=True, start_new_session=True)
@@ -723,6 +734,54 @@ def replay_lemma(r):
         if kind == "status-changes-under-translation":
             return st != st2, info
         return st == st2 and st != 0 and out2 != [[a + c, b + c] for a, b in out], info
+    if lemma == "bcstep":
+        # one iteration of the real loop (interpreted mode: pop_propagator is cut at its second call) from the recorded state
+        if not os.environ.get("NUMBA_DISABLE_JIT"):
+            return False, "step-level probes need the interpreted mode"
+        import nucs.solvers.bound_consistency_algorithm as BCA
+
+        pb, kw, BacktrackSolver = build_real(r)
+        s = BacktrackSolver(pb, **kw)
+        top = int(r.get("top", 0))
+        nd, NP = len(r["doms"]), int(pb.propagator_nb)
+        s.stacks_top[0] = top
+        for d in range(nd):
+            s.shr_domains_stack[top, d] = r["doms"][d]
+        s.triggered_propagators[:] = np.array(r["queue"], dtype=bool)
+        s.not_entailed_propagators_stack[top, :] = np.array(r["enabled"], dtype=bool)
+        calls, popped, real_pop = [0], [None], BCA.pop_propagator
+
+        class _Cut(Exception):
+            pass
+
+        def pop(tp, prev):
+            calls[0] += 1
+            if calls[0] == 2:
+                raise _Cut()
+            popped[0] = real_pop(tp, prev)
+            return popped[0]
+
+        BCA.pop_propagator = pop
+        status = None
+        try:
+            status = BCA.bound_consistency_algorithm(s.statistics, pb.algorithms, pb.var_bounds, pb.param_bounds, pb.dom_indices_arr, pb.dom_offsets_arr, pb.props_dom_indices, pb.props_dom_offsets, pb.props_parameters, pb.triggers, s.shr_domains_stack, s.not_entailed_propagators_stack, s.dom_update_stack, s.stacks_top, s.triggered_propagators, np.empty(0), s.decision_domains)
+        except _Cut:
+            pass
+        finally:
+            BCA.pop_propagator = real_pop
+        if status == 0:
+            return False, "the step reports inconsistency"
+        missing = []
+        for d in range(nd):
+            lo, hi = r["doms"][d]
+            a, b = (int(x) for x in s.shr_domains_stack[top, d])
+            for p in range(NP):
+                if p == popped[0] or not s.not_entailed_propagators_stack[top, p] or s.triggered_propagators[p]:
+                    continue
+                msk = int(pb.triggers[d, p])
+                if (msk & 1 and a > lo) or (msk & 2 and b < hi) or (msk & 4 and (a > lo or b < hi) and a == b):
+                    missing.append((d, p, [lo, hi], [a, b], msk))
+        return bool(missing), f"ran propagator {popped[0]}; (domain, watcher, before, after, mask) not woken: {missing}"
     if lemma == "init":
         pb, kw, _ = build_real(r)
         posted = list(pb.propagators)
@@ -1096,6 +1155,8 @@ def real_model(inst):
         from nucs.examples.quasigroup.quasigroup_problem import Quasigroup5Problem as K
     elif name == "quasigroup":
         from nucs.examples.quasigroup.quasigroup_problem import QuasigroupProblem as K
+    elif name == "sports":
+        from nucs.examples.sports_tournament_scheduling.sports_tournament_scheduling_problem import SportsTournamentSchedulingProblem as K
     elif name == "magic_square":
         from nucs.examples.magic_square.magic_square_problem import MagicSquareProblem as K
     elif name == "magic_sequence":
@@ -1145,21 +1206,32 @@ def real_model(inst):
                 results[ci] = None if sol is None else int(sol[pb.shr_domain_nb - 1])
         elif inst.get("all_valid"):
             # every solution of the real solver is judged by a definition-level validator: the result is the number of invalid ones
-            results[ci] = sum(1 for sol in s.solve() if not MODEL_VALIDATORS[inst["all_valid"]](sol.tolist(), args))
+            results[ci] = sum(1 for sol in itertools.islice(s.solve(), inst.get("first")) if not MODEL_VALIDATORS[inst["all_valid"]](sol.tolist(), args, pb))
         else:
             s.solve_all()
             results[ci] = int(s.get_statistics()["SOLVER_SOLUTION_NB"])
     return results
 
 
-def _idempotent_latin(sol, args):
+def _sports_schedule(sol, args, pb):
+    n, P_, W = pb.team_nb, pb.period_nb, pb.week_nb
+    team = lambda p, w, s_: sol[pb.team_var_index(p, w, s_)]  # noqa: E731
+    if any(sorted(team(p, w, s_) for p in range(P_) for s_ in range(2)) != list(range(n)) for w in range(W)):
+        return False  # every team plays once a week
+    if any(sum(1 for w in range(W) for s_ in range(2) if team(p, w, s_) == t) > 2 for p in range(P_) for t in range(n)):
+        return False  # at most twice in the same period
+    games = sorted(tuple(sorted((team(p, w, 0), team(p, w, 1)))) for p in range(P_) for w in range(W))
+    return games == [(a, b) for a in range(n) for b in range(a + 1, n)]  # every pair exactly once
+
+
+def _idempotent_latin(sol, args, pb=None):
     n = args[0]
     m = [sol[i * n : (i + 1) * n] for i in range(n)]
     full = set(range(n))
     return all(set(r) == full for r in m) and all({m[i][j] for i in range(n)} == full for j in range(n)) and all(m[i][i] == i for i in range(n))
 
 
-MODEL_VALIDATORS = {"idempotent_latin": _idempotent_latin}
+MODEL_VALIDATORS = {"idempotent_latin": _idempotent_latin, "sports": _sports_schedule}
 
 
 def replay_models(r):
